@@ -84,8 +84,7 @@ class Ctx:
         d = self._spec_dir()
         md = tempfile.mkdtemp(prefix="md-", dir=self.work)
         cmd = ["java", "-XX:+UseParallelGC", "-Xss256m"]
-        if heap:
-            cmd.append("-Xmx" + heap)
+        cmd.append("-Xmx" + (heap or "8g"))
         cmd += ["-cp", TLA_CP, "tlc2.TLC", "-workers", str(workers or min(NCPU, 16)), "-metadir", md,
                 "-config", os.path.join("cfg", cfg), "-noGenerateSpecTE"]
         if not deadlock:
@@ -206,12 +205,7 @@ class Ctx:
                 if fn.endswith(".go"):
                     rel = os.path.relpath(os.path.join(root, fn), src)
                     mapping[os.path.join(REPO_GO, "zz_verif", name, rel)] = os.path.join(root, fn)
-        # shared helper package
-        common = os.path.join(VERIF, "harness", "common")
-        if os.path.isdir(common):
-            for fn in os.listdir(common):
-                if fn.endswith(".go"):
-                    mapping[os.path.join(REPO_GO, "zz_verif", "common", fn)] = os.path.join(common, fn)
+        mapping.update(shared_mapping())
         ov = self.overlay(mapping)
         out = os.path.join(self.work, "engine-" + name)
         t = time.time()
@@ -222,9 +216,11 @@ class Ctx:
         self.log("built engine %s in %.1fs" % (name, time.time() - t))
         return out
 
-    def build_inpkg(self, pkg, tags="verif"):
-        """Compile the test binary of /repo/go/<pkg> with /verif/inpkg/<pkg>/*_test.go injected (overlay)."""
-        src = os.path.join(VERIF, "inpkg", pkg)
+    def build_inpkg(self, pkg, engine, tags="verif"):
+        """Compile the test binary of /repo/go/<pkg> with /verif/inpkg/<pkg>/<engine>/*.go injected (overlay).
+        Several engines may target the same package; each lives in its own sub-directory and is built alone.
+        Run the result with run_engine(..., test_run="TestVerifXxx")."""
+        src = os.path.join(VERIF, "inpkg", pkg, engine)
         mapping = {}
         for fn in os.listdir(src):
             if fn.endswith(".go"):
@@ -232,20 +228,29 @@ class Ctx:
                 if os.path.exists(dst):
                     raise Inconclusive("overlay would shadow an existing file: " + dst)
                 mapping[dst] = os.path.join(src, fn)
-        common = os.path.join(VERIF, "harness", "common")
-        if os.path.isdir(common):
-            for fn in os.listdir(common):
-                if fn.endswith(".go"):
-                    mapping[os.path.join(REPO_GO, "zz_verif", "common", fn)] = os.path.join(common, fn)
+        mapping.update(shared_mapping())
         ov = self.overlay(mapping)
-        out = os.path.join(self.work, "inpkg-" + pkg.replace("/", "_") + ".test")
+        out = os.path.join(self.work, "inpkg-" + pkg.replace("/", "_") + "-" + engine + ".test")
         t = time.time()
         rc, o = sh(["go", "test", "-c", "-vet=off", "-tags", tags, "-overlay", ov, "-o", out, "./" + pkg], cwd=REPO_GO,
                    env=go_env(), timeout=3600)
         if rc != 0:
-            raise Inconclusive("in-package engine %s does not build against the current tree:\n%s" % (pkg, o[-4000:]))
-        self.log("built in-package engine %s in %.1fs" % (pkg, time.time() - t))
+            raise Inconclusive("in-package engine %s/%s does not build against the current tree:\n%s" % (pkg, engine, o[-4000:]))
+        self.log("built in-package engine %s/%s in %.1fs" % (pkg, engine, time.time() - t))
         return out
+
+    def binding_selftest(self, binary, good_case, corrupt, args=(), test_run=None, env=None):
+        """Binding demonstration: the engine must accept good_case and reject corrupt(good_case)
+        (one expected field changed / one step dropped). Otherwise the check is Inconclusive."""
+        import copy
+        good = copy.deepcopy(good_case)
+        bad = corrupt(copy.deepcopy(good_case))
+        r = self.run_engine(binary, args, [good, bad], shards=1, test_run=test_run, env=env)
+        if not r[0].get("ok"):
+            return  # the real run will report it
+        if r[1].get("ok"):
+            raise Inconclusive("binding self-test failed: engine accepted a corrupted expectation")
+        self.cov["binding_selftest"] = "corrupted expectation rejected: " + str(r[1].get("fp") or r[1].get("detail", ""))[:200]
 
     def run_engine(self, binary, args, cases, shards=None, timeout=3600, env=None, test_run=None):
         """Feed cases (JSON objects, one per line) to the engine in `shards` parallel processes.
@@ -396,6 +401,21 @@ class Ctx:
         return res
 
 
+SHARED_PKGS = ("common", "sqlh")
+
+
+def shared_mapping():
+    """Library packages under /verif/harness that engines may import as github.com/dolthub/dolt/go/zz_verif/<name>."""
+    m = {}
+    for name in SHARED_PKGS:
+        d = os.path.join(VERIF, "harness", name)
+        if os.path.isdir(d):
+            for fn in os.listdir(d):
+                if fn.endswith(".go"):
+                    m[os.path.join(REPO_GO, "zz_verif", name, fn)] = os.path.join(d, fn)
+    return m
+
+
 def parse_coverage(out):
     acts = {}
     for m in re.finditer(r"<(\w+) line \d+, col \d+ to line \d+, col \d+ of module \w+>: (\d+):(\d+)", out):
@@ -404,12 +424,15 @@ def parse_coverage(out):
 
 
 def load_known():
-    p = os.path.join(VERIF, "known_findings.json")
-    if not os.path.exists(p):
-        return {}
+    """known_findings.json plus known_findings.d/*.json (one file per property, same format)."""
+    import glob
     out = {}
-    for k in json.load(open(p)).get("findings", []):
-        out.setdefault(k["property"], []).append(k)
+    paths = [os.path.join(VERIF, "known_findings.json")] + sorted(glob.glob(os.path.join(VERIF, "known_findings.d", "*.json")))
+    for p in paths:
+        if not os.path.exists(p):
+            continue
+        for k in json.load(open(p)).get("findings", []):
+            out.setdefault(k["property"], []).append(k)
     return out
 
 
